@@ -2450,8 +2450,14 @@ func (s *Server) serveConnCounted(c net.Conn, countConcurrency bool) error {
 		ctx.Request.secureErrorLogMessage = s.SecureErrorLogMessage
 		ctx.Response.secureErrorLogMessage = s.SecureErrorLogMessage
 
+		if err == nil && !markConnActive(idleConnTime) {
+			// Shutdown has picked this idle connection for closing at the
+			// very moment a request arrived. Don't start serving a request
+			// whose connection is being closed under it.
+			break
+		}
+
 		if err == nil {
-			idleConnTime.Store(0)
 			s.setState(c, StateActive)
 
 			if s.ReadTimeout > 0 {
@@ -3181,12 +3187,32 @@ func (s *Server) writeErrorResponse(bw *bufio.Writer, ctx *RequestCtx, serverNam
 
 var idleConnTimePool sync.Pool
 
+// idleConnClosing in a connection's idle time marks an idle connection that
+// Shutdown has decided to close.
+const idleConnClosing = -1
+
+// markConnActive marks the connection as serving a request, so that Shutdown
+// doesn't close it. It returns false if Shutdown is already closing it.
+func markConnActive(idleConnTime *atomic.Int64) bool {
+	for {
+		t := idleConnTime.Load()
+		if t == idleConnClosing {
+			return false
+		}
+		if idleConnTime.CompareAndSwap(t, 0) {
+			return true
+		}
+	}
+}
+
 func (s *Server) closeIdleConns() {
 	s.idleConnsMu.Lock()
 	now := time.Now().Unix()
 	for c, ict := range s.idleConns {
 		t := ict.Load()
-		if t != 0 && now-t >= 0 {
+		// Claim the connection before closing it: it may become active
+		// between the load and the close, see markConnActive.
+		if t > 0 && now-t >= 0 && ict.CompareAndSwap(t, idleConnClosing) {
 			_ = c.Close()
 			// Don't recycle ict: the connection's own goroutine still holds it
 			// and stores into it, so only that goroutine may return it.
